@@ -113,6 +113,8 @@ func TWCCModelGen(r *core.Rand, o Opts) *TWCCModel {
 
 // ChunkOpts selects chunkings beyond the canonical ones.
 type ChunkOpts struct {
+	// ZeroRuns sprinkles run-length chunks of length 0 between the others (while statuses remain).
+	ZeroRuns bool
 	// OvershootRun lets the final run-length chunk announce more packets than remain.
 	OvershootRun bool
 }
@@ -125,6 +127,10 @@ func (m *TWCCModel) Chunks(r *core.Rand, co ChunkOpts) []rtcp.PacketStatusChunk 
 	n := len(m.Status)
 	pref := r.Intn(4) // 0 mixed, 1 prefer run, 2 prefer 1-bit, 3 prefer 2-bit
 	for i := 0; i < n; {
+		if co.ZeroRuns && r.Chance(1, 8) {
+			// a run-length chunk of length 0: legal, wasteful, announces nothing
+			out = append(out, &rtcp.RunLengthChunk{Type: 0, PacketStatusSymbol: uint16(r.Intn(3)), RunLength: 0})
+		}
 		rem := n - i
 		run := 1
 		for i+run < n && m.Status[i+run] == m.Status[i] && run < 8191 {
